@@ -47,8 +47,16 @@ def oracle_images(R, tier, seed):
             Fr = ref["forces"][i][:, :ny - 1] if left else ref["forces"][i][:, ny - 1:]
             e = float(np.abs(F - Fr).max() / np.abs(Fr).max())
             if e > 1e-7: bad["sec_forces-s%d" % i] = e
+        # the height is a LENGTH: the same physical height supplied in feet must give the same answer (the unit contract of the
+        # input; a seeded change that dropped `units="m"` from the declaration was missed while every run supplied metres)
+        if not bad:
+            pf = aero.run(aero.build_aero(surfs, v=v, alpha=alpha, rho=rho, height_agl=h / 0.3048, height_units="ft", Mach=0.3))
+            for i in range(len(halves)):
+                F = aero.g(p, "aero.aero_states.s%d_sec_forces" % i); Ff = aero.g(pf, "aero.aero_states.s%d_sec_forces" % i)
+                e = float(np.abs(F - Ff).max() / np.abs(F).max())
+                if e > 1e-9: bad["height-in-feet-vs-metres-s%d" % i] = e
         O1["cases"] += 1
-        if bad: _fail(O1, "C08:AeroPoint:ground-effect-differs-from-image-system", desc, errors=bad, meshes=[m.tolist() for m in halves])
+        if bad: _fail(O1, "C08:AeroPoint:" + ("ground-effect-differs-from-image-system" if not any(k.startswith("height-in") for k in bad) else "height-unit-not-honoured"), desc, errors=bad, meshes=[m.tolist() for m in halves])
         else: O1["ok"] += 1
         # far-field: h = 1e5 spans reproduces free air; the deviation decays monotonically with h
         devs = []
